@@ -1508,7 +1508,7 @@ MANIFEST = {
             "TextOK, TypeTextOK, SeqOK, SeqTextOK, InstOK) that are discharged by `decide` for the regenerated tables on every run. Every model is tied "
             "to the real code on every run: model text == real text (terms, types, sequents), real line-broken texts matched against printTextW by the "
             "driver, model lexer == Lark's real token stream, model parsers == parse_term / parse_type / parse_thm / parse_inst, NameOK checked by the "
-            "driver. The property itself (12 settings, memo histories within and across theories, proof items) is checked by round trip on type-directed "
+            "driver. The property itself (12 settings, memo histories within one theory, across theory changes and across IN-PLACE extensions of the current theory object by a constant named like a bound name / its printed variant / a free variable / nothing, proof items) is checked by round trip on type-directed "
             "generated terms and all library statements.",
     "note": "Trusted: Lean kernel, propext/Classical.choice/Quot.sound; the harness generator, its own alpha-equality and type checker; the regex/ast reader "
             "of grammar, operator.py and pprint.py; Lark's LALR tables. NOT covered by a theorem (run-time round trip / correspondence only): WHICH subterms "
